@@ -74,6 +74,15 @@ HasVar(e) == CASE e.t = "num" -> FALSE [] e.t = "var" -> TRUE [] e.t = "neg" -> 
 RECURSIVE ConstExp(_)
 ConstExp(e) == CASE e.t \in {"num", "var"} -> TRUE [] e.t = "neg" -> ConstExp(e.a)
                  [] e.t = "bin" -> ConstExp(e.a) /\ ConstExp(e.b) /\ (e.op # "**" \/ (~HasVar(e.b) /\ Val(e.b)[1] /\ Val(e.b)[2][1] >= 1))
+\* the power rule of D is the derivative with respect to v as soon as no exponent depends on v (the exponent may depend on
+\* the other variable: d/dx x**y = y*x**(y-1)); an exponent that depends on v needs a logarithm: not judged exactly
+RECURSIVE DependsOn(_, _)
+DependsOn(e, v) == CASE e.t = "num" -> FALSE [] e.t = "var" -> e.n = v [] e.t = "neg" -> DependsOn(e.a, v)
+                     [] e.t = "bin" -> DependsOn(e.a, v) \/ DependsOn(e.b, v)
+RECURSIVE ExpIndep(_, _)
+ExpIndep(e, v) == CASE e.t \in {"num", "var"} -> TRUE [] e.t = "neg" -> ExpIndep(e.a, v)
+                    [] e.t = "bin" -> ExpIndep(e.a, v) /\ ExpIndep(e.b, v)
+                                      /\ (e.op # "**" \/ (~DependsOn(e.b, v) /\ Val(e.b)[1] /\ Val(e.b)[2][2] = 1 /\ Val(e.b)[2][1] >= 1))
 \* theorems of the oracle: printing then reading by the documented rules is the identity on a few examples
 Theorems == /\ PrMin(Bin("-", Num(1), Bin("-", Num(2), Var("x"))), "") = "1-(2-x)"
             /\ PrMin(Bin("-", Bin("-", Num(1), Num(2)), Var("x")), "") = "1-2-x"
@@ -83,4 +92,6 @@ Theorems == /\ PrMin(Bin("-", Num(1), Bin("-", Num(2), Var("x"))), "") = "1-(2-x
             /\ PrMin(Bin("/", Num(8), Bin("/", Num(2), Num(2))), " ") = "8 / (2 / 2)"
             /\ Val(Bin("**", Neg(Var("x")), Num(2)))[2] = RI(4) /\ Val(Neg(Bin("**", Var("x"), Num(2))))[2] = RI(-4)
             /\ Val(D(Bin("/", Var("x"), Bin("+", Var("x"), Var("y"))), "x"))[2] = <<3, 25>>
+            /\ ExpIndep(Bin("**", Var("x"), Var("y")), "x") /\ ~ExpIndep(Bin("**", Var("x"), Var("y")), "y")
+            /\ Val(D(Bin("**", Var("x"), Var("y")), "x"))[2] = RI(12)                     \* y*x**(y-1) at (2, 3)
 =============================================================================
